@@ -11,7 +11,7 @@ func ValueByTag(msg []byte, tag string) ([]byte, error) {
 	if len(msg) <= len(tag) {
 		return nil, fmt.Errorf("could not find the tag: %s, the message is too short: %s", tag, msg)
 	}
-	if start == -1 && !bytes.Equal(bytes.Join([][]byte{[]byte(tag)}, nil), msg[:len(tag)]) {
+	if start == -1 && !bytes.HasPrefix(msg, bytes.Join([][]byte{[]byte(tag), {61}}, nil)) {
 		return nil, fmt.Errorf("the tag is not found: %s", tag)
 	}
 	start += len(tag) + 2
